@@ -13,7 +13,7 @@
 (*      Substitute: template substitution of src/executors/bash_runner.rs     *)
 (*      Script / Split: the divider protocol of bash_script_executor.rs       *)
 (***************************************************************************)
-EXTENDS Naturals, Sequences, FiniteSets, TLC
+EXTENDS Integers, Sequences, FiniteSets, TLC
 
 CONSTANT Tier
 
@@ -105,6 +105,11 @@ Init == /\ exec \in {"md", "cram"}
               /\ keep = "unset" /\ strip = "unset" /\ stream = "stdout"
               /\ \E p \in {<<"GT", "SP", "a", "LF">>, <<"GT", "SP", "GT", "SP", "a", "LF">>, <<"SP", "a", "SP", "SP", "LF">>} :
                     tests = <<[T(p, <<>>, 0) EXCEPT !.tail = "heredoc"]>>
+           \/ \* F: the command is cut short by its own or by the document's time limit after it has written something:
+              \*    what it wrote until then is recorded (per-process executor)
+              /\ exec = "md" /\ keep = "unset" /\ strip = "unset" /\ stream = "stdout"
+              /\ \E p \in {<<"a", "LF">>, <<"a">>, <<"a", "LF", "a">>}, h \in {"hang_test", "hang_doc"} :
+                    tests = <<[T(p, <<"a", "LF">>, 0) EXCEPT !.tail = h]>>
            \/ \* C: two test cases (the first one possibly without final newline), exit codes per test case
               /\ keep = "unset" /\ strip = "unset" /\ stream \in {"stdout", "combined"}
               /\ \E p1 \in {<<"a">>, <<"a", "LF">>, <<>>, <<"a", "CR">>}, p2 \in {<<"a", "LF">>, <<"LF">>, <<>>}, c1 \in Codes, c2 \in {0, 255} :
@@ -136,5 +141,5 @@ C13ok(o) == /\ o.result = "ok"
             /\ \A k \in 1..Len(tests) :
                   /\ o.out[k] = ExpectedOut(k) \/ (Strip /\ o.out[k] = UnstrippedOut(k))
                   /\ o.err[k] = ExpectedErr(k) \/ (Strip /\ o.err[k] = UnstrippedErr(k))
-                  /\ o.code[k] = tests[k].code
+                  /\ o.code[k] = (IF tests[k].tail \in {"hang_test", "hang_doc"} THEN -2 ELSE tests[k].code)      \* -2: ran into a time limit
 =============================================================================
